@@ -196,6 +196,9 @@ fn entries_one<T: reg::Reg + parity_scale_codec::Encode>(ctx: &mut Ctx) {
 fn heap_one<T: reg::Reg + parity_scale_codec::Encode + parity_scale_codec::Decode>(ctx: &mut Ctx) {
 	drive_heap::<T>(ctx)
 }
+fn join_one<T: reg::Reg + parity_scale_codec::Encode + parity_scale_codec::Decode>(ctx: &mut Ctx) {
+	drive_join::<T>(ctx)
+}
 fn rt_one<T: reg::Reg + parity_scale_codec::Encode + parity_scale_codec::Decode>(ctx: &mut Ctx) {
 	drive_rt::<T>(ctx, None)
 }
@@ -253,6 +256,7 @@ fn main() {
 				each_codec_type!(enc_one, (&mut ctx));
 				// Encode-only forms (&T, &[T], &str, Cow, CompactRef, Ref, borrowed collections): their bytes against the owned type's descriptor
 				likes::drive(&mut ctx);
+				drive_enc_maxcount(&mut ctx);
 			},
 			"C02" => {
 				each_codec_type!(rt_one, (&mut ctx));
@@ -286,6 +290,7 @@ fn main() {
 			"C10" => { faults::drive(&mut ctx); },
 			"C07" => {
 				each_codec_type!(entries_one, (&mut ctx));
+				each_codec_type!(join_one, (&mut ctx));
 				each_seq_type!(rt_seq, (&mut ctx));
 				each_codec_type!(@list rt_one, (&mut ctx); [u8; 32], [u8; 33], [u16; 3], [u32; 2], [i64; 5], [u128; 2], [f32; 3], [i128; 1], [TwU16; 3]);
 			},
@@ -356,7 +361,12 @@ fn main() {
 				ops.extend(vec![cat_ops::<bytes::Bytes>()]);
 				drive_cat(&mut ctx, &ops);
 			},
-			"C03" | "C08" | "C12" | "C19" => { each_codec_type!(dec_one, (&mut ctx)); },
+			"C03" => {
+				each_codec_type!(dec_one, (&mut ctx));
+				#[cfg(feature = "bit-vec")]
+				drive_bitcap(&mut ctx);
+			},
+			"C08" | "C12" | "C19" => { each_codec_type!(dec_one, (&mut ctx)); },
 			_ => { eprintln!("unknown prop {}", prop); std::process::exit(2) },
 		},
 		_ => { eprintln!("usage: vharness gen --prop ID --tier T --seed N --out FILE"); std::process::exit(2) },
